@@ -378,11 +378,6 @@ func HashAccessFunction(name string) ZlispUserFunction {
 			arr := &SexpArray{Env: env}
 			for i := 0; i < n; i++ {
 				keys = append(keys, (hash.KeyOrder)[i])
-
-				// try to get a .Typ value going too... from the first available.
-				if arr.Typ == nil {
-					arr.Typ = (hash.KeyOrder)[i].Type()
-				}
 			}
 			arr.Val = keys
 			return arr, nil
